@@ -252,6 +252,102 @@ def modeV (xs : List Value) : Value :=
     .list firsts
   | none => .null
 
+/-! ### `mode`, declaratively (theorems `core_mode_spec`, `mode_ascending`, `mem_mode_iff`,
+`mode_unique` of `Props/C08.lean`)
+
+Numbers are compared as `FeelNumber == FeelNumber` compares them, by value: `1`, `1.0` and
+`1.00` are one value.  A value that occurs in several spellings is shown in the spelling of its
+first occurrence in the argument list (the specification is silent; the choice is the code's,
+whose sort is stable). -/
+
+/-- numeric equality (`1.0 = 1`) -/
+def numEq (a b : Dec) : Bool := Dec.cmp a b == .eq
+
+/-- the number of items of `ds` that have the value of `d` -/
+def occurrences (ds : List Dec) (d : Dec) : Nat := ds.countP (fun x => numEq x d)
+
+/-- the distinct values of `ds`, each in the spelling of its first occurrence -/
+def firstSpellings : List Dec → List Dec
+  | [] => []
+  | d :: ds => d :: (firstSpellings ds).filter (fun x => !numEq x d)
+
+/-- no value of `ds` occurs more often than `d` -/
+def occursMost (ds : List Dec) (d : Dec) : Bool :=
+  ds.all (fun e => decide (occurrences ds e ≤ occurrences ds d))
+
+/-- `mode(list)` of a list of numbers: the values whose number of occurrences is maximal,
+without repetition, in ascending order (`[]` for the empty list).  "Ascending" is computed by an
+insertion sort here; `mode_ascending` / `mem_mode_iff` / `mode_unique` say that the result is
+THE strictly ascending list whose members are the most frequent values. -/
+def mode (ds : List Dec) : List Dec :=
+  Bif.sortBy Dec.cmp ((firstSpellings ds).filter (occursMost ds))
+
+/-- `mode` on argument values: null when an item is not a number -/
+def modeSpecV (xs : List Value) : Value :=
+  match allNums xs with
+  | some ds => .list ((mode ds).map .num)
+  | none => .null
+
+/-! ### `stddev`: the sample standard deviation `sqrt( Σ (xᵢ − mean)² / (n − 1) )` over the
+rounded operations of `FeelNumber` (every operation rounds to 34 digits, half-even, and
+reduces), sums taken from the left starting at zero; null for fewer than two items or an item
+that is not a number. -/
+
+/-- `Σ` with the rounded addition, from the left, starting at 0 -/
+def sumR (ds : List Dec) : Dec := ds.foldl Dec.addR Dec.zero
+
+/-- `x²` with the rounded multiplication -/
+def squareR (x : Dec) : Dec := Dec.mulR x x
+
+/-- `mean` = `Σ xᵢ / n` -/
+def meanR (ds : List Dec) : Dec := Dec.divR (sumR ds) (Dec.ofNat ds.length)
+
+/-- `sqrt( Σ (xᵢ − mean)² / (n − 1) )` -/
+def stddev (ds : List Dec) : Dec :=
+  let mean := meanR ds
+  Dec.sqrtR (Dec.divR (sumR (ds.map (fun x => squareR (Dec.subR x mean)))) (Dec.subR (Dec.ofNat ds.length) Dec.one))
+
+def stddevV (xs : List Value) : Value :=
+  if xs.length < 2 then .null
+  else
+    match allNums xs with
+    | some ds => .num (stddev ds)
+    | none => .null
+
+/-! ### `sort(list, precedes)`: the stable arrangement
+
+`stableArrangement lt xs` inserts the items one after the other, each one behind all items
+placed before it except those it precedes at the end — the procedure `sort_law` of
+`harness/src/c08.rs` runs on the implementation's own answers.  `core_sort_stable_spec` proves
+that the merge sort of `core::sort` returns this list whenever `lt` is a strict weak order on
+the items. -/
+
+/-- neither precedes the other: the two items have the same rank -/
+def sameRank {α : Type} (lt : α → α → Bool) (a b : α) : Bool := !lt a b && !lt b a
+
+/-- `lt` is a strict weak order on the items of `xs` (the four conditions `sort_law` tests on the
+table of the implementation's answers `f(i, j)`); nothing is asked of `lt` elsewhere. -/
+structure StrictWeakOrderOn {α : Type} (lt : α → α → Bool) (xs : List α) : Prop where
+  irrefl : ∀ a ∈ xs, lt a a = false
+  asymm : ∀ a ∈ xs, ∀ b ∈ xs, lt a b = true → lt b a = false
+  trans : ∀ a ∈ xs, ∀ b ∈ xs, ∀ c ∈ xs, lt a b = true → lt b c = true → lt a c = true
+  sameRank_trans : ∀ a ∈ xs, ∀ b ∈ xs, ∀ c ∈ xs, sameRank lt a b = true → sameRank lt b c = true → sameRank lt a c = true
+
+/-- `r` is a stable arrangement of `xs` in the order `lt`: the same items, no item precedes an
+earlier one, and the items of every rank keep the order they have in `xs`. -/
+def StableSortOf {α : Type} (lt : α → α → Bool) (xs r : List α) : Prop :=
+  r.Perm xs ∧ r.Pairwise (fun a b => lt b a = false) ∧
+    ∀ a ∈ xs, r.filter (sameRank lt a) = xs.filter (sameRank lt a)
+
+/-- `x` goes behind `placed`, moving left past the items it precedes (`placed` is kept reversed:
+its head is the last item) -/
+def placeRev {α : Type} (lt : α → α → Bool) (x : α) : List α → List α
+  | [] => [x]
+  | y :: ys => if lt x y then y :: placeRev lt x ys else x :: y :: ys
+
+def stableArrangement {α : Type} (lt : α → α → Bool) (xs : List α) : List α :=
+  (xs.foldl (fun placed x => placeRev lt x placed) []).reverse
+
 /-- `flatten(list)` is characterised by the equations proved in `Props/C08.lean`
 (`flatten_no_lists`, `flatten_of_flat`, `flatten_append`, `flatten_nested`); the executable
 form is the obvious recursion. -/
@@ -504,6 +600,15 @@ def apply (name : String) (args : List Value) : Option Value :=
     | [.bool b] => some (.str (if b then "true" else "false"))
     | [_] => none
     | _ => some .null
+  | _ => none
+
+/-- The declarative specifications of the statistics functions (`mode`, `stddev`), to which
+`core_mode_spec` / `core_stddev_spec` of `Props/C08.lean` prove the model equal; `none` for the
+other functions.  Executed by `(c08 spec mode …)` / `(c08 spec stddev …)`. -/
+def applyStats (name : String) (args : List Value) : Option Value :=
+  match name with
+  | "mode" => some (optV modeSpecV (listArg args))
+  | "stddev" => some (optV stddevV (listArg args))
   | _ => none
 
 end Spec
